@@ -241,7 +241,7 @@ def search_programs(ctx: Ctx, pl: cxx.Pipeline) -> SearchResult:
 	res = SearchResult('run_cpp(transpile(P), a) == run_python(P, a): real Py2Cpp + g++ -std=c++20 vs CPython on generated typed programs')
 	hist: Counter[str] = Counter()
 	seen: set[str] = set()
-	dl = deadline(ctx, 240, 1500)   # total wall budget of the search: later phases are skipped (and counted), reductions stop
+	dl = deadline(ctx, 75, 1200)   # wall budget of the search: a phase that would START after it is skipped (and counted), reductions stop
 	import time
 	marks: list[tuple[str, float]] = [('start', time.time())]
 
@@ -272,10 +272,33 @@ def search_programs(ctx: Ctx, pl: cxx.Pipeline) -> SearchResult:
 			ctx.notes.append(f"corpus witness {c['_file']} is vacuous: {r.get('why')}")
 
 	mark('corpus')
+	# 2b. probe programs: one construct tranp is known to mishandle per program, randomised operands, own finding key
+	probes = [gen_prog.probe_program(random.Random(rng.random())) for _ in range(0 if past(dl) else ctx.scale(5, 45))]
+	hist['skipped-at-deadline:probes'] += int(past(dl))
+	for (key, d), r in zip(probes, pl.check_many([d for _, d in probes], per_unit=1) if probes else []):
+		res.cases += 1
+		seen.add(d['source'])
+		hist[f"probe:{key}:{r['status']}"] += 1
+		if r['status'] in ('mismatch', 'rejected', 'cxx-rejected'):
+			res.findings.append(Finding(key=key, what=gen_prog.PROBE_WHAT[key] + f" [probe program: {r['status']}]",
+				replay={'key': key, 'program': d, 'result': _short(r), 'emitted': r.get('emitted')}))
+
+	# 2b'. idiom programs: small families with randomised operands that must agree (callable captures, list-fill declarations)
+	idioms = [gen_prog.idiom_program(random.Random(rng.random()), key) for key in sorted(gen_prog.IDIOM_WHAT) for _ in range(0 if past(dl) else ctx.scale(3, 20))]
+	hist['skipped-at-deadline:idioms'] += int(past(dl))
+	for (key, d), r in zip(idioms, pl.check_many([d for _, d in idioms], per_unit=3)):
+		res.cases += 1
+		hist[f"{key}:{r['status']}"] += 1
+		if r['status'] in ('mismatch', 'rejected', 'cxx-rejected'):
+			res.findings.append(Finding(key=key, what=gen_prog.IDIOM_WHAT[key] + f" [idiom program: {r['status']}]",
+				replay={'key': key, 'program': d, 'result': _short(r), 'emitted': r.get('emitted')}))
+
+	mark('probes+idioms')
 	# 2. generated programs: generating is cheap, transpiling + compiling is not. A pool is generated and the programs that run are
 	# selected so that EVERY construct feature of the generator (for over enumerate / dict views / object views, list and dict comprehensions,
 	# default arguments, every augmented operator, ...) occurs in at least `need` of them, whatever the seed; the rest is filled in pool order
-	n = ctx.scale(40, 450)
+	n = 0 if past(dl) else ctx.scale(40, 450)
+	hist['skipped-at-deadline:generated'] += int(past(dl))
 	pool = [gen_prog.generate(random.Random(rng.random()), size=1 + i % 3) for i in range(ctx.scale(1500, 3000))]
 	# (programs free of the known defect classes are preferred for the cover: a failing program costs an attribution, and the fill keeps the others)
 	chosen, uncovered = select_cover(random.Random(rng.random()), [h for _, h in pool], n, need=ctx.scale(2, 6),
@@ -305,28 +328,6 @@ def search_programs(ctx: Ctx, pl: cxx.Pipeline) -> SearchResult:
 	hist['calls-compared'] = compared
 
 	mark('generated')
-	# 2b. probe programs: one construct tranp is known to mishandle per program, randomised operands, own finding key
-	probes = [gen_prog.probe_program(random.Random(rng.random())) for _ in range(0 if past(dl) else ctx.scale(5, 45))]
-	hist['skipped-at-deadline:probes'] += int(past(dl))
-	for (key, d), r in zip(probes, pl.check_many([d for _, d in probes], per_unit=1) if probes else []):
-		res.cases += 1
-		seen.add(d['source'])
-		hist[f"probe:{key}:{r['status']}"] += 1
-		if r['status'] in ('mismatch', 'rejected', 'cxx-rejected'):
-			res.findings.append(Finding(key=key, what=gen_prog.PROBE_WHAT[key] + f" [probe program: {r['status']}]",
-				replay={'key': key, 'program': d, 'result': _short(r), 'emitted': r.get('emitted')}))
-
-	# 2b'. idiom programs: small families with randomised operands that must agree (callable captures, list-fill declarations)
-	idioms = [gen_prog.idiom_program(random.Random(rng.random()), key) for key in sorted(gen_prog.IDIOM_WHAT) for _ in range(0 if past(dl) else ctx.scale(3, 20))]
-	hist['skipped-at-deadline:idioms'] += int(past(dl))
-	for (key, d), r in zip(idioms, pl.check_many([d for _, d in idioms], per_unit=3)):
-		res.cases += 1
-		hist[f"{key}:{r['status']}"] += 1
-		if r['status'] in ('mismatch', 'rejected', 'cxx-rejected'):
-			res.findings.append(Finding(key=key, what=gen_prog.IDIOM_WHAT[key] + f" [idiom program: {r['status']}]",
-				replay={'key': key, 'program': d, 'result': _short(r), 'emitted': r.get('emitted')}))
-
-	mark('probes+idioms')
 	# 2c. forced operator pairs: every well-typed parent x child pair of the precedence ladder (unary x binary, binary x binary x side,
 	# binary x unary) as its own tiny function, called on arguments on which the two groupings of the operator sequence differ
 	pcases = gen_prog.pair_cases(random.Random(rng.random()))
@@ -335,7 +336,15 @@ def search_programs(ctx: Ctx, pl: cxx.Pipeline) -> SearchResult:
 	hist['pair:cases'] = len(pcases)
 	hist['pair:cases-with-distinguishing-arguments'] = sum(1 for c in pcases if c['distinguishing'])
 	bad_cases: list[dict[str, Any]] = []
-	for (chunk, d), r in zip(pprogs, pl.check_many([d for _, d in pprogs], per_unit=6)):
+	# two halves: on a busy machine the second one is dropped (counted) rather than run past the budget
+	half = (len(pprogs) + 1) // 2
+	pres = pl.check_many([d for _, d in pprogs[:half]], per_unit=6) if pprogs else []
+	if pprogs and past(dl + 8):
+		hist['skipped-at-deadline:pair-programs'] += len(pprogs) - half
+		pprogs = pprogs[:half]
+	else:
+		pres += pl.check_many([d for _, d in pprogs[half:]], per_unit=6) if pprogs[half:] else []
+	for (chunk, d), r in zip(pprogs, pres):
 		res.cases += 1
 		hist[f"pair-program:{r['status']}"] += 1
 		if r['status'] in ('mismatch', 'rejected', 'cxx-rejected'):
@@ -663,6 +672,26 @@ def _has(t: OT, pred: Any) -> bool:
 	return pred(t) or any(_has(k, pred) for k in t.kids)
 
 
+# `prog k` runs case k; `prog x k1 k2 ..` runs the cases in one process, each result on a line `@k<TAB>value` (a case that ends the process —
+# UBSan, a loop that does not end — leaves the later ones without a line: those are then run one process per case)
+BATCH_MAIN = ('int main(int argc, char** argv) { if (argc > 2) { for (int i = 2; i < argc; i++) { int k = atoi(argv[i]); printf("@%d\\t", k); fflush(stdout); '
+	'run(k); fflush(stdout); } return 0; } run(atoi(argv[1])); return 0; }')
+
+
+def run_batch(exe: str, ks: list[int]) -> dict[int, str]:
+	"""results of the cases that completed in the one-process run (none when the machine gave it no CPU within the wall limit)"""
+	out: dict[int, str] = {}
+	for i in range(0, len(ks), 400):
+		_, text, _, why = cxx.run_limited([exe, 'x', *[str(k) for k in ks[i:i + 400]]], 30, 240)
+		if why == 'wall-timeout':
+			continue
+		for line in text.split('\n'):
+			m = re.fullmatch(r'@([0-9]+)\t(\S.*)', line)
+			if m:
+				out[int(m.group(1))] = m.group(2).strip()
+	return out
+
+
 GROUPING_PRELUDE = r'''#include <iostream>
 #include <string>
 // every operator of the core is overloaded to print how the compiler grouped it: g++ is the oracle for the C++ grammar
@@ -803,18 +832,19 @@ def stream_sem(ctx: Ctx, emit_cases_done: list[tuple[dict[str, Any], list[str], 
 		'else printf(v < 0 ? "f:-big\\n" : "f:big\\n"); }']
 	for k in core_ix:
 		src.append(f"static void f{k}(int a, int b, int c, bool p, bool q, double x, double y) {{ show({cases_in[k][0]['text']}); }}")
-	src.append('int main(int argc, char** argv) { int k = atoi(argv[1]); switch (k) {')
+	src.append('static void run(int k) { switch (k) {')
 	for k in core_ix:
 		v = cases_in[k][1]
 		src.append(f"\tcase {k}: f{k}({v['a']}, {v['b']}, {v['c']}, {'true' if v['p'] else 'false'}, {'true' if v['q'] else 'false'}, {v['x']!r}, {v['y']!r}); break;")
-	src.append('} return 0; }')
+	src.append('} }')
+	src.append(BATCH_MAIN)
 	path = os.path.join(work, 'sem.cpp')
 	with open(path, 'w', encoding='utf-8') as f:
 		f.write('\n'.join(src).replace('-2147483648', '(-2147483647 - 1)') + '\n')
 	rc, _, gxx_err = cxx.run_cmd(['g++', '-std=c++20', '-O0', '-w', '-fsanitize=undefined', '-fno-sanitize-recover=undefined', path, '-o', path[:-4]], 600)
 	rejected = rc != 0 and rc != -9
 
-	run_dl = deadline(ctx, 120, 600)
+	run_dl = deadline(ctx, 40, 500)
 
 	def run_one(k: int) -> str | None:
 		if rejected:
@@ -826,8 +856,10 @@ def stream_sem(ctx: Ctx, emit_cases_done: list[tuple[dict[str, Any], list[str], 
 			return None
 		return f'ok {out1.strip()}' if rc1 == 0 and out1.strip() else 'ub'
 
+	batch = {} if rejected or rc == -9 else run_batch(path[:-4], core_ix)
+	rest = [k for k in core_ix if k not in batch]
 	with ThreadPoolExecutor(16) as ex:
-		cpp_real = dict(zip(core_ix, ex.map(run_one, core_ix)))
+		cpp_real = {**{k: f'ok {v}' for k, v in batch.items()}, **dict(zip(rest, ex.map(run_one, rest)))}
 	run_skipped = sum(1 for v in cpp_real.values() if v is None)
 	cpp_real = {k: v for k, v in cpp_real.items() if v is not None}
 	cpp_real.update({k: 'noparse' for k in fused_ix})
@@ -1102,7 +1134,7 @@ def stream_stmt(ctx: Ctx) -> Stream:
 		progs.append(g.program())
 		shape.update(g.shape)
 	pre: list[dict[str, Any]] = []
-	dl = deadline(ctx, 120, 600)
+	dl = deadline(ctx, 40, 500)
 	skipped_dl = 0
 	for n_src, source in enumerate(progs):
 		if past(dl):
@@ -1155,16 +1187,17 @@ def stream_stmt(ctx: Ctx) -> Stream:
 	src = ['#include <cstdio>', '#include <cstdlib>']
 	for k, d in gxx:
 		src.append(f'static int f{k}(int a, int b, int c) {{\n' + '\n'.join(d['lines']) + '\n}')
-	src.append('int main(int argc, char** argv) { int k = atoi(argv[1]); switch (k) {')
+	src.append('static void run(int k) { switch (k) {')
 	for k, d in gxx:
 		src.append(f"\tcase {k}: printf(\"%d\\n\", f{k}({', '.join(str(v) for v in d['args'])})); break;")
-	src.append('} return 0; }')
+	src.append('} }')
+	src.append(BATCH_MAIN)
 	path = os.path.join(work, 'stmt.cpp')
 	with open(path, 'w', encoding='utf-8') as f:
 		f.write('\n'.join(src).replace('-2147483648', '(-2147483647 - 1)') + '\n')
 	rc, _, gxx_err = cxx.run_cmd(['g++', '-std=c++20', '-O0', '-w', '-fsanitize=undefined', '-fno-sanitize-recover=undefined', path, '-o', path[:-4]], 600)
 
-	run_dl = deadline(ctx, 90, 480)
+	run_dl = deadline(ctx, 40, 400)
 
 	def run_one(k: int) -> str | None:
 		if rc == -9 or past(run_dl):
@@ -1176,8 +1209,11 @@ def stream_stmt(ctx: Ctx) -> Stream:
 			return None
 		return f'cpp=ret {out1.strip()}' if rc1 == 0 and out1.strip() else 'cpp=ub'   # the CPU limit = a loop that does not end where the model's does
 
+	all_k = [k for k, _ in gxx]
+	batch = {} if rc != 0 else run_batch(path[:-4], all_k)
+	rest = [k for k in all_k if k not in batch]
 	with ThreadPoolExecutor(16) as ex:
-		cpp_real = dict(zip([k for k, _ in gxx], ex.map(run_one, [k for k, _ in gxx])))
+		cpp_real = {**{k: f'cpp=ret {v}' for k, v in batch.items()}, **dict(zip(rest, ex.map(run_one, rest)))}
 	cases = []
 	skipped_out = 0
 	for d in pre:
@@ -1219,7 +1255,7 @@ def stream_emit(ctx: Ctx) -> Stream:
 	for i in range(ctx.scale(300, 1500)):
 		items.append(('random', ot_gen(rng, rng.choice([T_INT, T_INT, T_BOOL, T_BOOL, T_FLOAT]), 1 + i % depth, mixed=i % 4 == 3)))
 	cases = []
-	dl = deadline(ctx, 150, 900)
+	dl = deadline(ctx, 50, 700)
 	skipped = 0
 	for i in range(0, len(items), 40):
 		if past(dl):
@@ -1286,7 +1322,7 @@ def start_search(ctx: Ctx) -> tuple[Any, Any]:
 			ctx._tmpdirs = []   # the child removes what the child creates
 			ctx.timings, ctx.notes = {}, []
 			t0 = time.time()
-			pl = cxx.Pipeline(ctx)
+			pl = cxx.Pipeline(ctx, workers=ctx.scale(8, 12))   # every worker builds a real App: on a busy machine the start-up of 12 costs more than it saves
 			try:
 				res = [search_programs(ctx, pl)]
 			finally:
